@@ -659,3 +659,21 @@ pub fn replay(_ctx: &CheckCtx, sub: &str, case: serde_json::Value) -> Result<Opt
     let c: Case = serde_json::from_value(case).map_err(|e| e.to_string())?;
     Ok(run_case(&c).1)
 }
+
+// ------------------------------------------------------------------------------------------------
+// C02's cross-thread sub-check: the same schedule family, only the lost-ping rule (see histprops.rs)
+
+const C02_RULES: &[&str] = &["C03.served"];
+
+pub fn xthread_for_c02(ctx: &CheckCtx) -> Option<Found> {
+    use crate::props::histprops::xthread_relabel;
+    if let Some(f) = ctx.run_replays::<Case, _>("xthread.ping", |c| xthread_relabel(run_case(c), C02_RULES)) {
+        return Some(f);
+    }
+    ctx.search("xthread.ping", case_strategy(), ctx.tier.pick(5_000, 80_000), 6, None, |c| xthread_relabel(run_case(c), C02_RULES))
+}
+
+pub fn xthread_replay(_sub: &str, case: serde_json::Value) -> Result<Option<Violation>, String> {
+    let c: Case = serde_json::from_value(case).map_err(|e| e.to_string())?;
+    Ok(crate::props::histprops::xthread_relabel(run_case(&c), C02_RULES).1)
+}
